@@ -266,7 +266,7 @@ def summarise(ctx, spec, results):
             explained = None
             for feat in r["features"]:
                 for f in known_feats.get(feat, []):
-                    if name in f.get("oracles", [name]):
+                    if name in f.get("oracles", [name]) and set(f.get("features_all", [])) <= set(r["features"]):
                         explained = f
             if explained is not None:
                 known_hits.setdefault(explained["id"], explained)
